@@ -21,12 +21,12 @@ RULE = (
     "(general path)}; transitions = API calls on the real code (builder ops + one compile per derivative callable: "
     "compile_gradient, compile_jacobian, compile_hessian, CompiledExpression.gradient, for V full / reversed / "
     "superset); an evaluation = one entry of a returned array at a point of the singular grid (+-0.0, +-1, +-2, 0.5, "
-    "float(pi/2); vector origin / one zero entry; atoms over the affine inner function 2x-1; norms of shifted vectors) checked for finiteness, for equality with the reference where "
+    "float(pi/2); vector origin / one zero entry; tiny arguments (1e-9, 1e-7) next to a singular entry, so that a regular entry above 1e16 shares an array with a non-finite one; atoms over the affine inner function 2x-1; norms of shifted vectors) checked for finiteness, for equality with the reference where "
     "the entry is regular, for the stated value (0 / +-1e16) on the bare atoms, and for entry-wise agreement of "
     "the vectorised and the element-by-element build; plus a complete GENERATED layer on the same singular grid (quick: "
     "unary chains <= 2, every unary function of every binary operation of two leaves, every binary operation of "
     "operands that are leaves or unary functions of a variable; thorough: every tree of depth <= 2 over 24 operators "
-    "and leaves x, y, 2, -1, and unary chains <= 3), checked for finiteness and unchanged regular entries.  Non-trivial = case with >=1 singular entry observed."
+    "and leaves x, y, 2, -1, and unary chains <= 3), checked for finiteness and unchanged regular entries (an entry that differs from the reference only counts when it also differs from optyx's own unsanitised symbolic derivative: formula accuracy at ill-conditioned points is C02 / C17's subject).  Non-trivial = case with >=1 singular entry observed."
 )
 ASSUMPTIONS = [
     "entry-level regularity from the reference jets (an entry is regular when no non-differentiable elementary "
@@ -106,6 +106,17 @@ def all_cases():
         yield {"id": ("norm", o, "xR"), "rows": (("bin", "*", n, Rp),)}
         yield {"id": ("norm", o, "2rows"), "rows": (R, n)}
         yield {"id": ("norm", o, "of-expr"), "rows": (("norm", ("vbin", "*", V3, ("c", 2)), o),)}
+    # one array holding BOTH a singular entry and a regular entry of huge magnitude (> 1e16): x tiny, y on the singular set
+    tiny = {"x": (1e-9, -1e-9, 1e-7, 1e-9), "y": (0.0, 0.0, 0.0, 0.75)}
+    for big in (("bin", "/", ("c", 1), X), ("bin", "**", X, ("c", -2)), ("un", "log", ("un", "abs", X))):
+        for sg in (("un", "sqrt", Y), ("un", "abs", Y), ("un", "log", Y)):
+            yield {"id": ("huge+singular", big, sg, "sum"), "rows": (("bin", "+", big, sg),), "points": tiny}
+            yield {"id": ("huge+singular", big, sg, "2rows"), "rows": (big, sg), "points": tiny}
+    vt = {"v[0]": (0.0, 0.0, 1e-9), "v[1]": (1e-9, -1e-9, 0.0), "v[2]": (2.0, 1e-7, 0.0), "y": (0.75, 0.75, 0.75)}
+    for f, k in (("log", None), ("sqrt", None), (None, -1), (None, -2), (None, 0.5)):
+        vec = ("sum", ("vun", f, V3)) if f else ("sum", ("vpow", V3, k))
+        gen = elementwise((lambda e, f=f: ("un", f, e)) if f else (lambda e, k=k: ("bin", "**", e, ("c", k))))
+        yield {"id": ("huge+singular-vector", f or k, "paths"), "rows": (vec,), "twin": (gen,), "points": vt}
     for f in VEC_FUN:
         vec = ("sum", ("vun", f, V3))
         gen = elementwise(lambda e, f=f: ("un", f, e))
@@ -201,14 +212,42 @@ def callables(b, rows, vn, fails, rep):
         rep.transitions += sum(size(r) for r in rows) + len(out)
         for k, (nm, _) in out.items():
             rep.outcomes[f"path:{k}:{nm}"] += 1
+    out["__objects__"] = (es, V)
     return out
+
+
+def unsanitised(objs, lab, x_names, xvals):
+    """optyx's own symbolic derivative evaluated on the tree (no sanitiser involved): the entries the sanitiser must
+    leave unchanged are exactly the finite ones of this array"""
+    from optyx.core import autodiff
+
+    es, V = objs
+    pd = dict(zip(x_names, (float(t) for t in xvals)))
+    with np.errstate(all="ignore"):
+        if lab in ("gradient", "ce.gradient"):
+            return np.array([float(np.asarray(autodiff.gradient(es[-1], v).evaluate(pd)).reshape(-1)[0]) for v in V])
+        if lab == "jacobian":
+            return np.array([[float(np.asarray(autodiff.gradient(e, v).evaluate(pd)).reshape(-1)[0]) for v in V] for e in es])
+        H = autodiff.compute_hessian(es[-1], V)
+        return np.array([[float(np.asarray(H[i][j].evaluate(pd)).reshape(-1)[0]) for j in range(len(V))] for i in range(len(V))])
 
 
 def check_case(case, tier, seed, rep=None, want=None):
     fails = Fails(want)
     rows = case["rows"]
     names = sorted(set().union(*[var_names(r) for r in rows]))
-    pts, Pn = points_for(names)
+    try:
+        for r_ in rows:
+            Builder().build(r_)
+    except Exception as ex:          # e.g. constants folding to a Python ZeroDivisionError: not an optyx expression
+        if rep:
+            rep.skipped["build:" + type(ex).__name__] += 1
+        return fails
+    if "points" in case:
+        pts = {n: np.array(v, dtype=float) for n, v in case["points"].items()}
+        Pn = len(next(iter(pts.values())))
+    else:
+        pts, Pn = points_for(names)
     wrt = sorted(pts.keys(), key=natural_key)
     ref = JetRef(rows[-1], wrt, pts, Pn, {})
     refs_rows = [JetRef(r, wrt, pts, Pn, {}) for r in rows]
@@ -225,9 +264,11 @@ def check_case(case, tier, seed, rep=None, want=None):
         perm = [pos[n] for n in vn]
         b = Builder()
         fns = callables(b, rows, vn, fails, rep)
+        objs = fns.pop("__objects__", None)
         twin = None
         if "twin" in case:
             twin = callables(Builder(), case["twin"], vn, fails, None)
+            twin.pop("__objects__", None)
         for k in range(Pn):
             x = np.array([float(pts[n][k]) for n in vn])
             outs = {}
@@ -266,6 +307,18 @@ def check_case(case, tier, seed, rep=None, want=None):
                 if okp:
                     regmask = ~sing & np.isfinite(exp)
                     bad = regmask & ~close(got, np.where(regmask, exp, 0.0), np.where(regmask, err, 0.0), REL_D)
+                    if bad.any() and case["id"][0] == "generated" and objs is not None:
+                        # generated layer: the accuracy of the derivative FORMULA at ill-conditioned points (cos(pi/2) =
+                        # 6e-17 ...) is C02 / C17's subject; here an entry counts as changed only if it also differs
+                        # from optyx's own unsanitised symbolic derivative (finite there)
+                        try:
+                            raw = unsanitised(objs, lab, vn, x)
+                            same = np.isfinite(raw) & (np.abs(got - np.where(np.isfinite(raw), raw, 0.0)) <= 1e-9 * (1 + np.abs(got)))
+                            bad = bad & ~same & np.isfinite(raw)
+                            if rep and not bad.any():
+                                rep.skipped["ill-conditioned-regular-entry-equal-to-unsanitised-derivative"] += 1
+                        except Exception:
+                            pass
                     if bad.any():
                         fails.add(f"regular-entry-changed:{lab}", V=vlab, order=vn, x=x, got=got, expected=exp, path=nm)
                 # stated values on bare atoms
